@@ -1,6 +1,6 @@
-#!/bin/sh
+#!/bin/bash
 # builds /repo the way the baseline does (guard off) and runs the 17-test suite
-set -e
+set -e -o pipefail
 cmake -G Ninja -S /repo -B /repo/_build >/dev/null 2>&1
 cmake --build /repo/_build 2>&1 | tail -2
 ctest --test-dir /repo/_build -j8 --timeout 900 2>&1 | tail -4
